@@ -24,8 +24,39 @@ func c04DB(ctx *Ctx, k int) vlib.DBSpec {
 		PseudoCmd: k%2 == 0, MixedCase: k%4 == 1}
 }
 
+// c04IsTool: "a recognised cross-platform tool" is whatever the program recognises (hook) - provided the program's text names
+// it: a first word that is a tool's name with letters glued on ("gits", "dockerx") and that appears nowhere in the program
+// is a different command, whatever a prefix comparison says.
+var c04Named map[string]bool
+
+func c04IsTool(cmd string) bool {
+	if !database.VerifIsCrossPlatformTool(cmd) {
+		return false
+	}
+	f := strings.Fields(strings.ToLower(cmd))
+	if len(f) == 0 || c04Named == nil {
+		return true
+	}
+	return c04Named[f[0]]
+}
+
+// c04Tools: the tool names the program recognises, found by asking the program about every word its own text contains.
+func c04Tools(ctx *Ctx) []string {
+	d := ctx.Dict()
+	c04Named = map[string]bool{}
+	var tools []string
+	for _, w := range d.Words {
+		lw := strings.ToLower(w)
+		c04Named[lw] = true
+		if database.VerifIsCrossPlatformTool(lw + " x") {
+			tools = append(tools, lw)
+		}
+	}
+	return tools
+}
+
 func c04Report(ctx *Ctx, cs map[string]interface{}, o database.SearchOptions, rs []database.SearchResult, entry, path string) {
-	for _, is := range vlib.CheckFilters(o, rs, database.VerifIsCrossPlatformTool) {
+	for _, is := range vlib.CheckFilters(o, rs, c04IsTool) {
 		ctx.R.Violate(vlib.Violation{Property: "C04", Clause: is.Clause, Path: entry + "/" + path, Detail: is.Detail, Witness: cs})
 	}
 }
@@ -34,6 +65,9 @@ func engineFilters(ctx *Ctx) {
 	r := vlib.NewRand(ctx.Seed, ctx.Shard, "filters")
 	nDB := ctx.N(320, 16000)
 	nQ := ctx.Pick(24, 30)
+	tools := c04Tools(ctx)
+	ctx.R.Extra["recognised_tool_names_in_the_program_text"] = float64(len(tools)) / float64(ctx.NShards)
+	c04ToolSweep(ctx, tools)
 	for d := 0; d < nDB; d++ {
 		var db *database.Database
 		dbName := fmt.Sprintf("gen-%d-%d", ctx.Shard, d)
@@ -42,6 +76,23 @@ func engineFilters(ctx *Ctx) {
 			dbName = "shipped"
 		} else {
 			cmds0 := vlib.GenCommands(r, c04DB(ctx, d+ctx.Shard))
+			if len(tools) > 0 && len(cmds0) > 3 {
+				// entries for other platforms whose command begins with a recognised tool's name with letters glued on, and
+				// entries that do begin with the tool (those may come back)
+				for k := 0; k < 2; k++ {
+					i := r.Intn(len(cmds0))
+					t := tools[r.Intn(len(tools))]
+					first := t + []string{"s", "x", "er", "z", "ctl", "-plus"}[r.Intn(6)]
+					if k == 1 && r.Intn(2) == 0 {
+						first = t
+					}
+					cmds0[i].Command = first + " " + cmds0[i].Command
+					cmds0[i].Platform = []string{vlib.AlienPlatforms[r.Intn(len(vlib.AlienPlatforms))]}
+					if !c04Named[first] {
+						ctx.R.Path("entries-named-like-a-tool-with-letters-glued-on", 1)
+					}
+				}
+			}
 			if !ctx.R.Guard("C04", "LoadDatabase", dbName, func() { db = vlib.MustLoad(cmds0) }) {
 				continue
 			}
@@ -159,7 +210,7 @@ func engineFilters(ctx *Ctx) {
 			opportunity := false
 			ctx.R.Guard("C04", "SearchUniversal", cs, func() {
 				for _, x := range db.SearchUniversal(q, open) {
-					if leak, _ := vlib.PlatformLeak(x.Command, o, database.VerifIsCrossPlatformTool); leak {
+					if leak, _ := vlib.PlatformLeak(x.Command, o, c04IsTool); leak {
 						opportunity = true
 					}
 					if o.PipelineOnly && vlib.DefinitelyNotPipeline(x.Command) {
@@ -233,6 +284,7 @@ func engineFilters(ctx *Ctx) {
 
 func engineFiltersCLI(ctx *Ctx) {
 	r := vlib.NewRand(ctx.Seed, ctx.Shard, "filters-cli")
+	c04Tools(ctx)
 	nDB := ctx.N(48, 1600)
 	for d := 0; d < nDB; d++ {
 		sp := c04DB(ctx, d+ctx.Shard)
@@ -285,7 +337,7 @@ func engineFiltersCLI(ctx *Ctx) {
 			o := database.SearchOptions{Platforms: plats, NoCrossPlatform: noCross}
 			for i, it := range items {
 				c := vlib.Cmd{Command: it.Command, Platform: it.Platforms}
-				if leak, why := vlib.PlatformLeak(&c, o, database.VerifIsCrossPlatformTool); leak {
+				if leak, why := vlib.PlatformLeak(&c, o, c04IsTool); leak {
 					cl := "platform"
 					if noCross {
 						cl = "no-cross-platform"
@@ -336,5 +388,47 @@ func engineFiltersCLI(ctx *Ctx) {
 			}
 		}
 		os.RemoveAll(base)
+	}
+}
+
+// c04ToolSweep: for every tool name the program recognises, entries for another platform whose command begins with that name
+// with letters glued on are searched for by a unique word under a linux request: they are not that tool and may not come back.
+func c04ToolSweep(ctx *Ctx, tools []string) {
+	var cmds []vlib.Cmd
+	var marks []string
+	for i, t := range tools {
+		if i%ctx.NShards != ctx.Shard {
+			continue
+		}
+		for k, sfx := range []string{"s", "x", "er", "z", "ctl", "-plus", "2go"} {
+			first := t + sfx
+			if c04Named[first] {
+				continue
+			}
+			m := fmt.Sprintf("zqmark%dx%d", i, k)
+			marks = append(marks, m)
+			cmds = append(cmds, vlib.Cmd{Command: first + " run " + m, Description: "does something on another system " + m, Platform: []string{"plan9"}})
+		}
+	}
+	if len(cmds) == 0 {
+		return
+	}
+	db := vlib.MustLoad(cmds)
+	cdb := database.NewCachedDatabase(db)
+	for _, m := range marks {
+		for _, o := range []database.SearchOptions{{Limit: 5, Platforms: []string{"linux"}}, {Limit: 5, UseNLP: true}, {Limit: 5, UseFuzzy: true, Platforms: []string{"windows"}}} {
+			q := m
+			if o.UseFuzzy {
+				q = m[:3] + m[4:]
+			}
+			cs := map[string]interface{}{"db": "tool-names-with-letters-glued-on", "n": len(cmds), "query": q, "opts": vlib.OptsJ(o)}
+			ctx.R.Begin(cs)
+			ctx.R.Eval(1)
+			ctx.R.Path("tool-name-sweep", 1)
+			ctx.R.Guard("C04", "SearchUniversal", cs, func() {
+				c04Report(ctx, cs, o, db.SearchUniversal(q, o), "SearchUniversal", "tool-name-sweep")
+				c04Report(ctx, cs, o, cdb.SearchWithOptionsAndCache(q, o), "SearchWithOptionsAndCache", "tool-name-sweep")
+			})
+		}
 	}
 }
